@@ -115,6 +115,8 @@ pub const UNARY: &[&str] = &[
     "r := if v: [int] = X { v[-1] * 2 } else { 0 }", "r := if v: [string] = X { std.len(v[-1]) } else { 0 }",
     "r := if v: (int, int) = X { v.0 * v.1 } else { 0 }", "r := if v: struct{a: int} = X { v.a * 2 } else { 0 }",
     "r := if v: mut int = X { v += 1 } else { 0 }", "r := match X { v: [int] => v[0] - 1, v: [string] => std.len(v[0]), => 0, }",
+    // reducers over the iterator of an array (an empty array may be labelled `[!]`: the declared type decides)
+    "r := X~ $+", "r := X~ $*", "r := X[0:0]~ $+", "r := X~ ? (v: any) -> bool { return true; } $+",
 ];
 
 /// infix operators applied to two operands `X op Y`
